@@ -530,17 +530,17 @@ class ConnModel:
                 ("the woken waker leaves the table, every other stream's waker stays registered",
                  z3.BoolVal(left == [k for k in ids if k != target]))]
 
-    def _event_slice(self):
+    def _event_slice(self, call=r"quinn_proto::Connection::poll", what="quinn_proto::Connection::poll"):
         c = [f for k, f in self.fns.items() if k.startswith("connection::") and k.endswith("::run::{closure#0}") and "Poll<()>" in f.sig]
         if len(c) != 1:
             raise Unsupported("cannot locate ConnectionInner::run's coroutine body (%d)" % len(c))
         fn = c[0]
-        poll_bb = [b for b, sts in fn.blocks.items() if re.search(r"= quinn_proto::Connection::poll\(", sts[-1])]
+        poll_bb = [b for b, sts in fn.blocks.items() if re.search(r"= " + call + r"\(", sts[-1])]
         if len(poll_bb) != 1:
-            raise Unsupported("run(): expected one call of quinn_proto::Connection::poll, found %d" % len(poll_bb))
-        m = re.match(r"^\s*(_\d+) = quinn_proto::Connection::poll\(.*\[return: (bb\d+)", fn.blocks[poll_bb[0]][-1])
+            raise Unsupported("run(): expected one call of %s, found %d" % (what, len(poll_bb)))
+        m = re.match(r"^\s*(_\d+) = " + call + r"\(.*\[return: (bb\d+)", fn.blocks[poll_bb[0]][-1])
         if not m:
-            raise Unsupported("run(): cannot parse the call of quinn_proto::Connection::poll")
+            raise Unsupported("run(): cannot parse the call of " + what)
         ev_local, start = m.group(1), m.group(2)
         guards = set()
         for sts in fn.blocks.values():
@@ -637,5 +637,29 @@ class ConnModel:
             obs.append(("Connected event: the connection is marked connected", st.f[self.idx("connected")].v))
         return obs
 
-    CHECKS = ["wake_stream", "stream_event", "conn_event", "terminate", "poll_recv_datagram", "poll_open_stream", "poll_accept_stream", "stream_stopped", "stream_received_reset",
+    def check_close_event(self, p):
+        """the worker's reaction to ConnectionEvent::Close(code, reason) (what Connection::close / Endpoint::close / the implicit close on
+        drop send it): the slice of run()'s body from `events.into_iter().next()` answering Some(Close(..)) to the next `next()`"""
+        W, I = self.world(p)
+        fn, ev_local, start, next_block, guards = self._event_slice(
+            r"<std::vec::IntoIter<connection::ConnectionEvent> as Iterator>::next", "IntoIter<ConnectionEvent>::next")
+        st, placed = self.state(p)
+        guard = Struct({0: Cell(Ref(Cell(Struct({0: Cell(st)}))))})
+        ev = EnumV(0, [Cell(("code",)), Cell(("reason-bytes",))])           # ConnectionEvent::Close = 0, Proto = 1
+        r = I.run_to_end(I.call_fn(fn, [None, None], p, start=start, init=dict({g: guard for g in guards}, **{ev_local: EnumV(1, [Cell(ev)])}),
+                                   stop=(next_block,)))
+        self.encoded |= I.called
+        if not (isinstance(r, tuple) and r and r[0] == "stopped-at"):
+            raise Unsupported("run(): the Close arm did not come back to the event loop (%r)" % (r,))
+        err = st.f[self.idx("error")].v
+        obs = [("Close event: the error is stored and the connection marked not connected",
+                z3.And(z3.BoolVal(err.variant == 1), z3.Not(st.f[self.idx("connected")].v)))]
+        for name, ws in placed.items():
+            for w in ws:
+                obs.append(("Close event: every waker held in `%s` is woken exactly once" % name,
+                            z3.BoolVal(sum(1 for x in W.woken if x is w) == 1)))
+        obs.append(("Close event: no waker is left behind in any field of ConnectionState", z3.BoolVal(not self.holders(st))))
+        return obs
+
+    CHECKS = ["wake_stream", "stream_event", "conn_event", "close_event", "terminate", "poll_recv_datagram", "poll_open_stream", "poll_accept_stream", "stream_stopped", "stream_received_reset",
               "stream_write", "stream_read"]
